@@ -50,6 +50,8 @@ func (a *LabelFormatPlanner) Process(ctx *shared.PlannerContext,
 			for _, fn := range labelFns {
 				entry.Labels = fn(entry.Labels)
 			}
+			// the label set changed: so does the series the entry belongs to
+			entry.Fingerprint = fingerprint(entry.Labels)
 			return nil
 		},
 		OnAfterEntriesSlice: func(entries []shared.LogEntry, c chan []shared.LogEntry) error {
